@@ -40,6 +40,7 @@ selftest/mutants/F22-reintroduce.patch C01
 selftest/mutants/F23-reintroduce.patch C07
 selftest/mutants/F24-reintroduce.patch C07
 selftest/mutants/F25-reintroduce.patch C07
+selftest/mutants/F27-reintroduce.patch C02
 seeded/C15-c/patch.diff C15
 seeded/C19-c/patch.diff C19
 seeded/C11-c/patch.diff C11
